@@ -283,6 +283,7 @@ pub trait TypedIterable {
             let packet = &mut self.parsed_packet_mut().packet_mut();
             packet[offset..offset + new_name_len].copy_from_slice(name);
         }
+        self.parsed_packet_mut().cached = None;
         self.recompute_rr();
 
         Ok(())
